@@ -38,6 +38,9 @@ pub struct CorsDesc {
     pub origin: String,
     pub credentials: bool,
     pub allow_headers: Vec<String>,
+    /// `AllowHeaders([])`: configured with zero entries (no request header is allowed) - not the same as not configured (echo)
+    #[serde(default)]
+    pub allow_headers_configured_empty: bool,
     pub expose_headers: Vec<String>,
     pub max_age: Option<u32>,
 }
@@ -47,6 +50,7 @@ impl CorsDesc {
         if self.credentials { c = c.AllowCredentials() }
         let l = |v: &Vec<String>, i: usize| leak(&v[i]);
         c = match self.allow_headers.len() {
+            0 if self.allow_headers_configured_empty => c.AllowHeaders([]),
             0 => c, 1 => c.AllowHeaders([l(&self.allow_headers, 0)]), 2 => c.AllowHeaders([l(&self.allow_headers, 0), l(&self.allow_headers, 1)]),
             n => panic!("appgen: {n} allow-headers not supported by the generator"),
         };
